@@ -166,7 +166,9 @@ def apply_unified_diff(read, diff_text: str) -> Optional[Dict[str, str]]:
 
 
 def seeded_mutants(prop: str, model) -> List[Mutant]:
-    """The confirmed seeded changes (independent sub-agents) whose meta.json names this property, as overlay variants."""
+    """The confirmed seeded changes (independent sub-agents) that this property's rules are on record as catching
+    (meta.json `caught_by`, written from the last seed matrix), as overlay variants: a regression test of the checker.
+    A seed that was written against this property but is caught by a neighbouring property's rules only is replayed there."""
     import json
 
     out: List[Mutant] = []
@@ -182,7 +184,7 @@ def seeded_mutants(prop: str, model) -> List[Mutant]:
             m = json.loads(meta.read_text())
         except ValueError:
             continue
-        targets = set(m.get("caught_by", [])) | {m.get("breaks_property")}
+        targets = set(m.get("caught_by", [])) or {m.get("breaks_property")}
         if prop not in targets:
             continue
         ov = apply_unified_diff(model.read, patch.read_text(encoding="utf-8"))
